@@ -176,11 +176,21 @@ func c13RunHp(t *testing.T, stats *VStats) {
 				DefaultUdpEndpointPool = old
 				verifYieldHook = nil
 			}()
+			// fixed-policy groups ignore dialer health (their endpoints sit in transport buckets only); the
+			// others register their endpoints with the dialer so that an invalidation can find them
+			policy := ob.DialerSelectionPolicy{Policy: consts.DialerSelectionPolicy_Fixed, FixedIndex: 0}
+			healthAware := rr.Chance(0.5)
+			if healthAware {
+				policy = ob.DialerSelectionPolicy{Policy: consts.DialerSelectionPolicy_Random}
+				stats.Inc("hp.seq.healthAwareGroup")
+			} else {
+				stats.Inc("hp.seq.fixedGroup")
+			}
 			d := componentdialer.NewDialer(u, &componentdialer.GlobalOption{Log: logger, CheckInterval: time.Hour},
 				componentdialer.InstanceOption{DisableCheck: true}, &componentdialer.Property{})
 			grp := ob.NewDialerGroup(&componentdialer.GlobalOption{Log: logger, CheckInterval: time.Hour}, "g",
 				[]*componentdialer.Dialer{d}, []*componentdialer.Annotation{{}},
-				ob.DialerSelectionPolicy{Policy: consts.DialerSelectionPolicy_Fixed, FixedIndex: 0},
+				policy,
 				func(bool, *componentdialer.NetworkType, bool) {})
 			outbounds := make([]*ob.DialerGroup, int(consts.OutboundUserDefinedMin)+1)
 			outbounds[consts.OutboundUserDefinedMin] = grp
@@ -199,6 +209,19 @@ func c13RunHp(t *testing.T, stats *VStats) {
 					}
 					stats.Inc("hp.kill")
 					s.Emit(fmt.Sprintf("hp kill %d", c.id), c13HpDigest(u))
+					continue
+				}
+				if rr.Chance(0.07) {
+					// the dialer's health flips: endpoints that carried traffic survive (all of handlePkt's have
+					// sent by the time it returns), so the flows keep their endpoints
+					nt := &componentdialer.NetworkType{L4Proto: consts.L4ProtoStr_UDP, IpVersion: consts.IpVersionStr_4, UdpHealthDomain: componentdialer.UdpHealthDomainData}
+					if rr.Bool() {
+						nt.IpVersion = consts.IpVersionStr_6
+					}
+					n := DefaultUdpEndpointPool.InvalidateDialerNetworkType(d, nt)
+					synctest.Wait()
+					stats.Inc("hp.inval")
+					s.Emit("hp inval", fmt.Sprintf("removed=%d %s", n, c13HpDigest(u)))
 					continue
 				}
 				src, dst := srcs[rr.Intn(nsrc)], dsts[rr.Intn(ndst)]
